@@ -8,9 +8,17 @@ package modhash
 // member list, the member list is small enough for the weight computation, and the map exists.
 //@ pred mhInv(m) = m != nil && m.mapValues != nil && len(m.endpoints) <= 16777216 && len(m.staticWeightRouterCache) <= 1694498817 && (forall j {m.staticWeightRouterCache[j]} :: (0 <= j && j < len(m.staticWeightRouterCache)) ==> (0 <= m.staticWeightRouterCache[j] && m.staticWeightRouterCache[j] < len(m.endpoints)))
 //
+// Set agreement between the member list and the key map (the "current set" of the property is a set of hosts):
+// every member's host is a key of the map, and no two members share a host. Add keeps it because it consults the
+// map first; Remove relies on it to know that deleting the first member with the host deletes the only one.
+//@ pred mhKeys(m) = forall i {m.endpoints[i].Host} :: (0 <= i && i < len(m.endpoints)) ==> haskey(m.mapValues, m.endpoints[i].Host)
+//@ pred mhDistinct(m) = forall i, j {m.endpoints[i].Host, m.endpoints[j].Host} :: (0 <= i && i < j && j < len(m.endpoints)) ==> m.endpoints[i].Host != m.endpoints[j].Host
+//@ pred mhSet(m) = mhKeys(m) && mhDistinct(m)
+//
 //@ func New
 //@   allocates
 //@   ensures [C13] mhInv(result) && fresh(result) && len(result.endpoints) == 0 && result.enableWeight == enableWeight
+//@   ensures [C13] mhSet(result)
 //@   safety [C13]
 //
 //@ func (*ModHash).Select
@@ -36,6 +44,9 @@ package modhash
 //@   ensures [C13] err == nil ==> (len(m.endpoints) == old(len(m.endpoints)) + 1 && m.endpoints[old(len(m.endpoints))] == ep)
 //@   ensures [C13] objof(m.endpoints) == old(objof(m.endpoints)) || fresh(m.endpoints)
 //@   ensures m.mapValues != nil
+//@   ensures [C13] old(mhKeys(m)) ==> mhKeys(m)
+//@   ensures [C13] old(mhSet(m)) ==> mhDistinct(m)
+//@   perreturn
 //@   safety [C13]
 //
 //@ func (*ModHash).Add
@@ -43,6 +54,7 @@ package modhash
 //@   modifies m.endpoints, elems(m.endpoints), mapcells(m.mapValues), m.staticWeightRouterCache
 //@   allocates
 //@   ensures [C13] result == nil ==> mhInv(m)
+//@   ensures [C13] old(mhSet(m)) ==> mhSet(m)
 //@   safety [C13]
 //
 //@ func (*ModHash).Refresh
@@ -52,6 +64,8 @@ package modhash
 //@   ensures [C13] mhInv(m)
 //@   ensures [C13] cap(m.endpoints) == 0 || fresh(m.endpoints)
 //@   ensures [C13] len(m.endpoints) <= len(eps)
+//@   ensures [C13] mhSet(m)
+//@   loop 0 invariant [C13] mhSet(m)
 //@   loop 0 invariant m != nil && m.mapValues != nil && fresh(m.mapValues) && len(m.endpoints) <= rangeindex + 1 && (cap(m.endpoints) == 0 || fresh(m.endpoints)) && (objof(m.endpoints) == objof(atentry(0, m.endpoints)) || loopfresh(0, m.endpoints))
 //@   loop 0 modifies m.endpoints, elems(m.endpoints), mapcells(m.mapValues)
 //@   safety [C13]
@@ -62,5 +76,10 @@ package modhash
 //@   allocates
 //@   ensures [C13] mhInv(m)
 //@   ensures [C13] len(m.endpoints) <= old(len(m.endpoints))
+//@   ensures [C13] (old(mhSet(m)) && result == nil) ==> (forall i {m.endpoints[i].Host} :: (0 <= i && i < len(m.endpoints)) ==> m.endpoints[i].Host != ep.Host)
+//@   ensures [C13] (old(mhSet(m)) && result == nil) ==> mhKeys(m)
+//@   ensures [C13] (old(mhSet(m)) && result == nil) ==> mhDistinct(m)
+//@   perreturn
 //@   loop 0 invariant m != nil && m.mapValues != nil && hdr(m.endpoints) == old(hdr(m.endpoints))
+//@   loop 0 invariant [C13] forall i {m.endpoints[i].Host} :: (0 <= i && i <= rangeindex) ==> m.endpoints[i].Host != ep.Host
 //@   safety [C13]
